@@ -99,6 +99,10 @@ class ExprBuilder:
             name = (c.get("rfn") or c["fn"]) if c else "<indirect>"
             args = tuple(self.operand(a) for a in t["args"])
             node = ("call", name, args, d[1])
+            if name.endswith("box_assume_init_into_vec_unsafe") and t["args"]:
+                lit = self.vec_literal(t["args"][0])
+                if lit is not None:
+                    node = lit
             if c is None:
                 node = ("call", "<indirect>", (self.operand(t["f"]),) + args, d[1])
         else:
@@ -106,6 +110,47 @@ class ExprBuilder:
         self.active.discard(l)
         self.memo[l] = node
         return node
+
+    def vec_literal(self, boxop):
+        """`vec![a, b, ..]` on this toolchain: Box::new_uninit(); (*ptr).value.value.0 = [a, b, ..];
+        box_assume_init_into_vec_unsafe(box).  Returns ("agg", "vec", idx, ops) or None."""
+        body = self.body
+        p = boxop.get("m", boxop.get("c"))
+        if p is None:
+            return None
+        bl = pl_local(p)
+        # follow moves back to the Box::new_uninit result
+        seen = set()
+        while bl not in seen:
+            seen.add(bl)
+            d = body.single_def(bl)
+            if d and d[0] == "st" and d[3]["rv"]["r"] == "use":
+                q = d[3]["rv"]["a"].get("m", d[3]["rv"]["a"].get("c"))
+                if q is not None and isinstance(q, int):
+                    bl = q
+                    continue
+            break
+        if not hasattr(body, "_vecwrites"):
+            # pointer local -> box local ; writes through pointer locals
+            ptr_of = {}
+            writes = {}
+            for b, i, s in body.statements():
+                if s["s"] != "assign":
+                    continue
+                rv = s["rv"]
+                if rv["r"] == "cast" and isinstance(s["p"], int):
+                    q = rv["a"].get("c", rv["a"].get("m"))
+                    if q is not None and not isinstance(q, int) and ".pointer" in q["p"]:
+                        ptr_of[s["p"]] = q["l"]
+                if not isinstance(s["p"], int) and s["p"]["p"] and s["p"]["p"][0] == "*" and rv["r"] == "agg" and rv.get("ak") == "array":
+                    writes.setdefault(s["p"]["l"], []).append(rv)
+            body._vecwrites = (ptr_of, writes)
+        ptr_of, writes = body._vecwrites
+        for pl, boxl in ptr_of.items():
+            if boxl == bl and pl in writes and len(writes[pl]) == 1:
+                rv = writes[pl][0]
+                return ("agg", "vec", tuple(str(i) for i in range(len(rv["ops"]))), tuple(self.operand(o) for o in rv["ops"]))
+        return None
 
     def rvalue(self, rv):
         r = rv["r"]
